@@ -173,6 +173,10 @@ package json
 //@ assumes notLaundered: !laundered(ret0)
 //@ ensures template: typeis(old(e.src), ptr(stringVal)) && ctx != nil ==> tmplParses == old(tmplParses) + 1
 //@ ensures verbatim: typeis(old(e.src), ptr(stringVal)) && ctx == nil ==> ret0 == strVal(old(unbox(e.src, ptr(stringVal)).Value)) && len(ret1) == 0
+// (round 8, C13: exact literal mapping) a number is the number value of exactly the parsed big float -
+// no detour through a machine integer or float - and a boolean the boolean value of the literal.
+//@ ensures number: typeis(old(e.src), ptr(numberVal)) ==> ret0 == numVal(old(unbox(e.src, ptr(numberVal)).Value)) && len(ret1) == 0
+//@ ensures boolean: typeis(old(e.src), ptr(booleanVal)) ==> ret0 == boolVal(old(unbox(e.src, ptr(booleanVal)).Value)) && len(ret1) == 0
 
 // ---- variables of JSON expressions (unit U16b, C07) ----
 // verif:unit U16b props=C07
